@@ -10,6 +10,7 @@ from __future__ import annotations
 import multiprocessing as mp
 import os
 import re
+import sys
 import time
 import traceback
 
@@ -219,6 +220,10 @@ def run_items(items, jobs=None, timeout_ms=None):
 
 def main(argv=None):
     import argparse
+    if os.environ.get("PYTHONHASHSEED") != "0":
+        # reproducible solver input (set iteration order)
+        os.environ["PYTHONHASHSEED"] = "0"
+        os.execv(sys.executable, [sys.executable, "-m", "pyvc.run"] + list(sys.argv[1:] if argv is None else argv))
     ap = argparse.ArgumentParser()
     ap.add_argument("names", nargs="*")
     ap.add_argument("-v", action="store_true")
